@@ -126,3 +126,27 @@ Example ex2_mvol_run :
   vviews ex_g im' hs' [(515, [2; 4]); (514, [3; 5])] = [(ex2_a, 512); (ex2_b, 514)] /\
   bf_multi [([], 0); ([], 0)] ex2_mops rs = Some [(ex2_a, 512); (ex2_b, 514)].
 Proof. vm_compute. repeat split. Qed.
+
+(* ---------------------------------------------------------------- the run invariant is satisfiable: the state after the two
+   creates on the example image (mount: C04_session2_start ; create_file twice: C04_session2_create_keeps_inv) *)
+Example ex2_run_inv :
+  let g := parse_geom ex_vol_im in
+  exists st1 gs es ls,
+    s2_creates ex_U ex_O {| s2_im := ex_vol_im; s2_fi := ex_sfi; s2_hs := [] |} ex2_reqs = Some st1 /\
+    RunInv g ex_vol_im [] st1 gs es ls /\ length gs = 2%nat /\ length (s2_hs st1) = 2%nat.
+Proof.
+  cbv zeta. destruct ex2_hyps as (Hg & Hb & Hfi & Hiss & _ & Hrq & _).
+  set (g := parse_geom ex_vol_im) in *.
+  assert (exists st1, s2_creates ex_U ex_O {| s2_im := ex_vol_im; s2_fi := ex_sfi; s2_hs := [] |} ex2_reqs = Some st1) as [st1 E].
+  { vm_compute. eexists. reflexivity. }
+  assert (exists ls, dir_scan (root_region_slots g ex_vol_im) 0 [] false = ([], ls, [])) as [ls Hscan].
+  { vm_compute. eexists. reflexivity. }
+  pose proof (run_inv_start g Hg ex_vol_im ex_sfi [] ls eq_refl Hb Hfi Hscan) as R0.
+  assert (Forall (fun q => TimeProofs.datetime_valid (snd q) = true) ex2_reqs) as Hclk.
+  { eapply Forall_impl; [|exact Hrq]. intros q [_ H]. exact H. }
+  destruct (s2_creates_inv g Hg ex_U ex_O ex_vol_im [] ex2_reqs _ [] [] ls st1 Hclk R0 E)
+    as (news & es1 & xs & R1 & N1 & _ & _ & Hhs & _ & Hlen).
+  exists st1, news, es1, ls. split; [exact E|]. split; [exact R1|]. split.
+  - clear -N1. assert (length ex2_reqs = length news) as X by (induction N1; cbn [length]; congruence). rewrite <- X. reflexivity.
+  - rewrite Hhs. cbn [s2_hs app]. rewrite Hlen. reflexivity.
+Qed.
